@@ -6,6 +6,7 @@ package rt
 import (
 	"bytes"
 	"fmt"
+	"math/big"
 	"hash/fnv"
 	"reflect"
 	"sort"
@@ -551,3 +552,11 @@ func BytesContains(site int, a, b []byte) bool {
 
 // SetTracking switches per-access content hashing (write discovery) on or off.
 func (s *Sched) SetTracking(on bool) { s.tracking = on }
+
+// BI logs the leak model of a math/big operand (its bit length) and returns it unchanged.
+func BI(site int, x *big.Int) *big.Int {
+	if t := trace; t != nil && t.active && x != nil {
+		t.ev('g', site, int64(x.BitLen()))
+	}
+	return x
+}
